@@ -27,11 +27,15 @@ TIERS = dict(quick=dict(cases=20000, wall=40.0), thorough=dict(cases=1200000, wa
 
 def feat_for(tier):
     f = sched.default_feat()
+    f["prior_run"] = True
     f["acts"] = dict(cont=8, ret=2, raise_=0, kbint=0, extend=0, remove=0, forever=2)
     f["enter"] = dict(ok=14, raise_=0, ret=1)
     f["limit_prob"] = (2, 3)
     f["max_steps"] = 6
     f["allow_empty"] = True
+    # more decimal tocks and start tymes: limits whose cycle end tymes land within an ulp of start + limit
+    f["T"] = [1.0, 0.25, 0.1, 1.0 / 3.0, 0.3, 0.7, 0.03125, 0.5]
+    f["t0"] = [0.0, 1.5, 0.3, 0.2, 100.1, 8.0, 0.9]
     if tier == "thorough":
         f.update(max_nodes=14, max_depth=4, max_steps=10, max_roots=4)
     return f
